@@ -39,7 +39,7 @@ func runL1(p *l1Profile) func(r *core.Run) *core.Violation {
 }
 
 func init() {
-	c10 := &l1Profile{Prop: "C10", Blocks: [2]int{8, 40}, MaxTx: 4, Periods: stdPeriods, Crash: 5,
+	c10 := &l1Profile{Prop: "C10", Reimport: 2, Blocks: [2]int{8, 40}, MaxTx: 4, Periods: stdPeriods, Crash: 5,
 		W:       map[string]int{"create": 10, "deposit": 60, "send": 8, "propose": 4, "updProposer": 2, "params": 2, "recordBatch": 2, "multi": 6},
 		RegFee:  true,
 		NonTriv: func(w *l1World) bool { return w.succ["deposit"] >= 2 && len(w.m.Bridges) >= 1 }}
@@ -51,7 +51,7 @@ func init() {
 
 	l1Assume := []string{"outer tx signatures are not verified; the signer is the declared signer field", "single block proposer", "the L2 side is represented by fabricated withdrawal sets committed by the independent prover"}
 
-	c01 := &l1Profile{Prop: "C01", Blocks: [2]int{10, 50}, MaxTx: 5, Periods: []time.Duration{time.Second, 10 * time.Second, time.Hour}, Crash: 5, DepFault: 6, GasAbort: 4, Byz: 25, RegFee: true,
+	c01 := &l1Profile{Prop: "C01", Reimport: 2, Blocks: [2]int{10, 50}, MaxTx: 5, Periods: []time.Duration{time.Second, 10 * time.Second, time.Hour}, Crash: 5, DepFault: 6, GasAbort: 4, Byz: 25, RegFee: true,
 		W:       map[string]int{"create": 8, "deposit": 30, "send": 10, "propose": 14, "delete": 4, "claim": 30, "updProposer": 2, "updChallenger": 2, "batchInfo": 1, "params": 1, "multi": 8},
 		NonTriv: func(w *l1World) bool { return w.succ["deposit"] >= 1 && w.succ["claim"] >= 1 && len(w.m.Bridges) >= 2 }}
 	core.Register(&core.Scenario{ID: "C01", Level: "exploration", Run: runL1(c01), Components: l1Components, Assumptions: l1Assume,
@@ -59,7 +59,7 @@ func init() {
 		QuickRuns: 3000, QuickSecs: 75, ThoroughRuns: 50000, ThoroughSecs: 700,
 		RequiredProbes: []string{"reject.claim.escrow-underfunded", "claim.perturbed-rejected"}})
 
-	c02 := &l1Profile{Prop: "C02", Blocks: [2]int{12, 60}, MaxTx: 6, Periods: []time.Duration{time.Second, 2 * time.Second, 10 * time.Second}, Crash: 10, Byz: 8,
+	c02 := &l1Profile{Prop: "C02", Reimport: 2, Blocks: [2]int{12, 60}, MaxTx: 6, Periods: []time.Duration{time.Second, 2 * time.Second, 10 * time.Second}, Crash: 10, Byz: 8,
 		W:       map[string]int{"create": 4, "deposit": 14, "propose": 16, "delete": 8, "claim": 60, "updProposer": 1, "multi": 5},
 		NonTriv: func(w *l1World) bool { return w.succ["claim"] >= 2 }}
 	core.Register(&core.Scenario{ID: "C02", Level: "exploration", Run: runL1(c02), Components: l1Components, Assumptions: l1Assume,
@@ -67,7 +67,7 @@ func init() {
 		QuickRuns: 2000, QuickSecs: 75, ThoroughRuns: 50000, ThoroughSecs: 700,
 		RequiredProbes: []string{"reject.claim.already-claimed"}})
 
-	c03 := &l1Profile{Prop: "C03", Blocks: [2]int{10, 50}, MaxTx: 8, Periods: []time.Duration{time.Second, 2 * time.Second, time.Hour}, Byz: 75,
+	c03 := &l1Profile{Prop: "C03", Reimport: 2, Blocks: [2]int{10, 50}, MaxTx: 8, Periods: []time.Duration{time.Second, 2 * time.Second, time.Hour}, Byz: 75,
 		W:       map[string]int{"create": 4, "deposit": 14, "propose": 16, "delete": 5, "claim": 70, "multi": 6},
 		NonTriv: func(w *l1World) bool { return w.succ["claim"] >= 1 && w.r.Probes["claim.perturbed-rejected"] >= 3 }}
 	core.Register(&core.Scenario{ID: "C03", Level: "exploration", Run: runL1(c03), Components: l1Components, Assumptions: l1Assume,
@@ -75,24 +75,24 @@ func init() {
 		QuickRuns: 3000, QuickSecs: 75, ThoroughRuns: 50000, ThoroughSecs: 700,
 		RequiredProbes: []string{"reject.claim.proof-mismatch", "reject.claim.output-root-mismatch", "claim.perturbed-but-valid"}})
 
-	c05 := &l1Profile{Prop: "C05", Blocks: [2]int{15, 70}, MaxTx: 4, Crash: 5, Byz: 5, BadCfg: 20,
+	c05 := &l1Profile{Prop: "C05", Reimport: 2, Blocks: [2]int{15, 70}, MaxTx: 4, Crash: 5, Byz: 5, BadCfg: 20,
 		Periods: []time.Duration{1, 999 * time.Millisecond, time.Second, 1500 * time.Millisecond, 10 * time.Second, time.Hour, 7 * 24 * time.Hour, 1<<63 - 1},
-		W:       map[string]int{"create": 8, "deposit": 10, "propose": 25, "delete": 20, "claim": 35, "updProposer": 3, "updChallenger": 3, "batchInfo": 3, "metadata": 2, "oracleCfg": 1, "multi": 5},
+		W:       map[string]int{"burst": 5, "create": 8, "deposit": 10, "propose": 25, "delete": 20, "claim": 35, "updProposer": 3, "updChallenger": 3, "batchInfo": 3, "metadata": 2, "oracleCfg": 1, "multi": 5},
 		NonTriv: func(w *l1World) bool { return w.succ["claim"] >= 1 && w.succ["delete"] >= 1 }}
 	core.Register(&core.Scenario{ID: "C05", Level: "exploration", Run: runL1(c05), Components: l1Components, Assumptions: l1Assume,
 		Rule: "clock-centric histories: bridges offered with periods from 1 ns to 2^63-1 ns and hostile (zero / negative) ones, propose / delete / re-propose / claim / role changes along non-decreasing block times that target the instants just before, at and after each finality boundary; oracle stated in real time with an explicit 1 s ambiguity band, observations inside the band must agree with each other and finality is irreversible; non-trivial = >=1 successful claim and >=1 successful deletion",
 		QuickRuns: 3000, QuickSecs: 75, ThoroughRuns: 50000, ThoroughSecs: 700,
 		RequiredProbes: []string{"reject.claim.not-final", "reject.delete.final-output", "time.boundary-targeted", "finality.band-observed"}})
 
-	c11 := &l1Profile{Prop: "C11", Blocks: [2]int{15, 70}, MaxTx: 5, Crash: 5, Periods: []time.Duration{time.Second, 5 * time.Second, time.Hour},
-		W:       map[string]int{"create": 8, "deposit": 4, "propose": 50, "delete": 30, "claim": 8, "updProposer": 3, "updChallenger": 3, "batchInfo": 3, "multi": 6},
+	c11 := &l1Profile{Prop: "C11", Reimport: 2, Blocks: [2]int{15, 70}, MaxTx: 5, Crash: 5, Periods: []time.Duration{time.Second, 5 * time.Second, time.Hour},
+		W:       map[string]int{"burst": 8, "create": 8, "deposit": 4, "propose": 50, "delete": 30, "claim": 8, "updProposer": 3, "updChallenger": 3, "batchInfo": 3, "multi": 6},
 		NonTriv: func(w *l1World) bool { return w.succ["propose"] >= 3 && w.succ["delete"] >= 1 }}
 	core.Register(&core.Scenario{ID: "C11", Level: "exploration", Run: runL1(c11), Components: l1Components, Assumptions: l1Assume,
 		Rule: "seeded histories of propose (right / wrong index, higher / equal / lower L2 block), delete (any index, any signer) and re-propose over several bridges with some outputs becoming final; after every block the paginated OutputProposals listing, OutputProposal(i), LastFinalizedOutput and the exported log are compared with a model log and the structural invariants are checked directly; non-trivial = >=3 accepted proposals and >=1 deletion",
 		QuickRuns: 2000, QuickSecs: 75, ThoroughRuns: 50000, ThoroughSecs: 700,
 		RequiredProbes: []string{"reject.propose.wrong-index", "reject.propose.l2-block-not-increasing", "reject.delete.final-output", "reject.delete.index-out-of-range"}})
 
-	c19 := &l1Profile{Prop: "C19", Blocks: [2]int{10, 45}, MaxTx: 4, Crash: 5, DepFault: 10, Hook: true, Periods: []time.Duration{time.Second, time.Hour},
+	c19 := &l1Profile{Prop: "C19", Reimport: 2, Blocks: [2]int{10, 45}, MaxTx: 4, Crash: 5, DepFault: 10, Hook: true, Periods: []time.Duration{time.Second, time.Hour},
 		W:       map[string]int{"create": 30, "metadata": 30, "updChallenger": 25, "updProposer": 5, "deposit": 3, "propose": 3},
 		NonTriv: func(w *l1World) bool { return len(w.m.Admin) >= 1 && (w.succ["metadata"]+w.succ["updChallenger"]) >= 1 }}
 	core.Register(&core.Scenario{ID: "C19", Level: "exploration", Run: runL1(c19), Components: l1Components, Assumptions: append(append([]string{}, l1Assume...), "IBC channel and perm keepers are store-backed stubs with the semantics stated in DESIGN 3.1"),
